@@ -523,3 +523,87 @@ def window_op_tasks(tier, role, kinds=('count', 'event_time')):
                               '<=%s elements, HashMap order arbitrary' % (kind, p, ln), role=role,
                        opts={'covers': ['two_keys']}, budget=200))
     return ts
+
+
+# ------------------------------------------------------------------------------------ Reorder
+
+def drive_logged(ex, nxt, holder, up, max_out):
+    """like hlib.drive, but records how much of the upstream script had been consumed at each output"""
+    out, consumed = [], []
+    while True:
+        el = ex.call_function(nxt, [Ref(holder, 0)])
+        out.append(el)
+        consumed.append(up.pos)
+        if el.variant == 'Terminate':
+            return out, consumed
+        if len(out) > max_out:
+            raise Violation('operator produced more than %d elements without terminating' % max_out,
+                            extra={'output': [repr(x) for x in out[:12]]})
+
+
+def reorder_harness(w, iters, max_len, kinds='TW'):
+    new = w.impls[(None, 'Reorder')]['new'][0]
+    nxt = w.impls[('Operator', 'Reorder')]['next'][0]
+    hlib.check_se_table(w)
+
+    def h(ex):
+        script = hlib.gen_script(ex, iters, max_len, kinds, payload=id_payload, ts_span=(1000, 5))
+        consumed = None
+        if ex.env.get('native'):
+            out = hlib.native_operator(ex, 'reorder', [], script)
+        else:
+            up = hlib.Upstream(script)
+            op = ex.call_function(new, [up])
+            out, consumed = drive_logged(ex, nxt, [op], up, 2 * len(script) + 4)
+        sx = lambda: {'script': [repr(e) for e in script], 'output': [repr(e) for e in out]}
+        hlib.check_grammar(ex, out, iters, 'Reorder output')
+        hlib.check_wm_contract(ex, out, 'Reorder output')
+        ins, outs = hlib.split_iterations(script), hlib.split_iterations(out)
+        for k, (i_it, o_it) in enumerate(zip(ins, outs)):
+            ids_in = sorted(e.fields[0].v for e in data_items(i_it))
+            ids_out = sorted(e.fields[0].v for e in data_items(o_it))
+            if ids_in != ids_out:
+                raise Violation('reorder lost or duplicated elements', hlib._wit(ex), sx())
+            tin = {e.fields[0].v: e.fields[1] for e in i_it if e.variant == 'Timestamped'}
+            prev = None
+            for e in o_it:
+                if e.variant == 'Timestamped':
+                    check(ex, e.fields[1].v == tin[e.fields[0].v].v, 'reorder altered a timestamp', sx)
+                    if prev is not None:
+                        hlib.cover(ex, 'two_sorted')
+                        check(ex, prev.v <= e.fields[1].v, 'reorder output is not in non-decreasing timestamp order', sx)
+                    prev = e.fields[1]
+            win = [e.fields[0].v for e in i_it if e.variant == 'Watermark']
+            wout = [e.fields[0].v for e in o_it if e.variant == 'Watermark']
+            if len(win) != len(wout):
+                raise Violation('reorder lost or duplicated a watermark', hlib._wit(ex), sx())
+            for a, b in zip(win, wout):
+                check(ex, a == b, 'reorder altered a watermark', sx)
+        # release discipline: an element leaves only once a watermark >= its timestamp or the end of the
+        # iteration has been received (model run only: needs the consumption log)
+        if consumed is not None:
+            for el, npos in zip(out, consumed):
+                if el.variant != 'Timestamped':
+                    continue
+                seen = script[:npos]
+                me = [i for i, e in enumerate(seen) if e.variant == 'Timestamped' and e.fields[0].v == el.fields[0].v]
+                if not me:
+                    raise Violation('reorder emitted an element before receiving it', hlib._wit(ex), sx())
+                after = seen[me[0] + 1:]
+                conds = [True for e in after if e.variant == 'FlushAndRestart']
+                if conds:
+                    continue
+                cov = [zbool(ex.binop('Ge', e.fields[0], el.fields[1])) for e in after if e.variant == 'Watermark']
+                check(ex, z3.Or(cov) if cov else False,
+                      'reorder released an element before a watermark or the end of the iteration covered it', sx)
+        return sx()
+    return h
+
+
+def reorder_tasks(tier, role):
+    it, ln = (2, [4, 2]) if tier == 'quick' else (2, [5, 3])
+    return [Task('reorder_i%d' % it, 'reorder_harness', {'iters': it, 'max_len': ln},
+                 bounds='Reorder::next driven to Terminate; %d iterations x <=%s elements (Timestamped/Watermark in any '
+                        'order, contract-respecting), timestamps symbolic in [1000,1005); glidesort modelled as a '
+                        'stable sort on the Ord of the operator (timestamp only)' % (it, ln),
+                 role=role, opts={'covers': ['two_sorted']}, budget=300)]
